@@ -33,3 +33,4 @@ package managers
 //@   ensures[own-notifications-are-dropped] old(its.ctx.Client.CUID) == notification.CUID ==> G.notifSyncs == old(G.notifSyncs)
 //@   ensures[at-most-one-sync] G.notifSyncs <= old(G.notifSyncs) + 1
 //@   modifies *, G:notifSyncs
+
